@@ -267,6 +267,29 @@ Fixpoint cell_run (c : cellcfg) (st : cellstate) (is : list stepin) : list (cell
   | i :: tl => let r := cell_step c st i in r :: cell_run c (fst r) tl
   end.
 
+(* ---- hyperparameters given per parameter element.  The kernel trainers accept TENSOR-valued kernel keyword arguments
+   (kept as buffers of the cell state and handed to the kernel on every forward, kernel_stdp.py:137-149, 282-292);
+   a tensor shaped like the parameter (plus the receptive axis) gives every parameter element its own learning rate /
+   time constant.  The forward is element-wise, so the cell is then described by one trainer value per element. *)
+Fixpoint map3 {A B C D : Type} (f : A -> B -> C -> D) (la : list A) (lb : list B) (lc : list C) : list D :=
+  match la, lb, lc with
+  | a :: ta, b :: tb, c :: tc => f a b c :: map3 f ta tb tc
+  | _, _, _ => []
+  end.
+Definition set_tr (c : cellcfg) (tr : trainer) : cellcfg :=
+  mkCfg (c_B c) (c_npre c) (c_npost c) (c_syn c) (c_dt c) tr.
+Definition cell_step_ps (c : cellcfg) (trs : list trainer) (st : cellstate) (i : stepin) : cellstate * list parts :=
+  let pre := ev_fold_t (c_dt c) (si_pre i) (cs_pre st) in
+  let post := ev_fold_t (c_dt c) (si_post i) (cs_post st) in
+  (mkCS (Some pre) (Some post),
+   map3 (fun s d tr => fwd tr (si_sig i) (tds_of (set_tr c tr) pre post s d)) (c_syn c) (si_delay i) trs).
+Fixpoint cell_run_ps (c : cellcfg) (trs : list trainer) (st : cellstate) (is : list stepin)
+  : list (cellstate * list parts) :=
+  match is with
+  | [] => []
+  | i :: tl => let r := cell_step_ps c trs st i in r :: cell_run_ps c trs (fst r) tl
+  end.
+
 End Forward.
 End Model.
 
